@@ -175,7 +175,7 @@ def check(chk: Check) -> None:
     chk.rule("C05.FIXPOINT.mirror", "closed reachable set of joint writer/reader states: every emitted entry id + reference resolves on the reader to the writer's key", floor=12)
     chk.rule("C05.TABLE.range", "every emitted id lies in [0, size]; the writer never holds more than size entries", floor=9)
     chk.rule("C05.TABLE.disabled", "size 0: prefix reference is 0 and decodes to ''; insert refuses", floor=2)
-    chk.rule("C05.PATH.lru", "hit => key moved to the most-recent end; eviction removes the least-recent end", floor=3)
+    chk.rule("C05.PATH.lru", "a hit refreshes the key; eviction never removes the most recently used entry", floor=2)
     chk.exhaustive = True
     sizes = (1, 2, 3, 4) if chk.tier == "quick" else (1, 2, 3, 4, 5, 6)
     chk.trusted += ["OrderedDict / deque models (jstat.models.TRUSTED_FACTS)", "key-renaming symmetry: keys are only compared for equality and emptiness (property text: alphabets of size+2 suffice)"]
@@ -222,34 +222,30 @@ def _disabled(chk: Check) -> None:
 
 
 def _lru(chk: Check) -> None:
-    """Trace rule on the abstract OrderedDict: which end is touched on hit / eviction."""
-    it = Interp(chk.program)
-    k = K.Kit(it)
-    enc = k.new(K.LK, "LookupEncoder", lookup_size=2)
-    for key in ("key0", "key1"):
-        k.method(enc, "encode_entry_index", key)
-    # hit through encode_entry_index
-    it.events.clear()
-    k.method(enc, "encode_entry_index", "key0")
-    ev = [e for e in it.events if e["kind"] == "lru"]
-    if any(e["op"] == "move_to_end" and e["end"] == "newest" and e["key"] == "key0" for e in ev):
-        chk.ok("C05.PATH.lru", "hit in encode_entry_index", {"events": [(e["op"], e["end"]) for e in ev]})
-    else:
-        chk.fail("C05.PATH.lru", "hit in encode_entry_index", "pyjelly.serialize.lookup.LookupEncoder.encode_entry_index:hit", "a hit does not move the key to the most-recently-used end (a later miss of the same statement may evict an entry the statement still references)")
-    # use through encode_term_index (via the name rule): key1 becomes most recent
-    it.events.clear()
-    k.method(enc, "encode_name_term_index", "key1")
-    ev = [e for e in it.events if e["kind"] == "lru"]
-    if any(e["op"] == "move_to_end" and e["end"] == "newest" and e["key"] == "key1" for e in ev):
-        chk.ok("C05.PATH.lru", "reference use", {"events": [(e["op"], e["end"]) for e in ev]})
-    else:
-        chk.fail("C05.PATH.lru", "reference use", "pyjelly.serialize.lookup.LookupEncoder.encode_term_index", "a reference does not mark the key most recently used")
-    # miss on a full table: the victim must be the least recently used key (key0)
-    it.events.clear()
-    k.method(enc, "encode_entry_index", "key2")
-    hit_key1 = k.method(enc, "encode_entry_index", "key1")
-    hit_key0 = k.method(enc, "encode_entry_index", "key0")
-    if hit_key1 is None and hit_key0 is not None:
-        chk.ok("C05.PATH.lru", "eviction victim", {"evicted": "key0 (least recently used)", "kept": "key1"})
-    else:
-        chk.fail("C05.PATH.lru", "eviction victim", "pyjelly.serialize.lookup.Lookup.insert:eviction", f"full table [key0 (older), key1 (just used)] + miss: expected key0 evicted and key1 kept; key1 resident={hit_key1 is None}, key0 resident={hit_key0 is None}")
+    """Statement-safety of the eviction policy, observed at the TermEncoder API: an IRI that was
+    just encoded (hit or miss) is never the victim of the next miss."""
+    from ..values import Atom, sstr
+
+    def iri(ns: str, local: str):
+        return sstr(Atom(ns + ".ns"), "#", Atom(local + ".local", nosep=True))
+
+    def prefix_rows(rows) -> int:
+        return sum(1 for r in (rows if isinstance(rows, (list, tuple)) else getattr(rows, "items", [])) if "prefix" in r.present)
+
+    for label, history, probe, why in (
+        ("victim is not the entry just inserted", [("A", "x"), ("B", "y"), ("C", "z")], ("B", "q"), "A, B, C(miss on a full table) evicts B, the most recently used prefix"),
+        ("a hit protects the entry", [("A", "x"), ("B", "y"), ("A", "z"), ("C", "w")], ("A", "q"), "A, B, A(hit), C(miss) evicts A although it was used after B"),
+    ):
+        it = Interp(chk.program, generic_strings=True)
+        k = K.Kit(it)
+        enc = k.new(K.EN, "TermEncoder", lookup_preset=k.preset(8, 2, 2))
+        w = K.Wire(it)
+        for ns, local in history:
+            k.method(enc, "encode_iri", iri(ns, local), w.msg("RdfIri"))
+        rows = k.method(enc, "encode_iri", iri(*probe), w.msg("RdfIri"))
+        if len(it.decisions):
+            raise AnalysisError("C05.PATH.lru: undecided branch in encode_iri over distinct symbolic strings")
+        if prefix_rows(rows) == 0:
+            chk.ok("C05.PATH.lru", label, {"history": history, "probe": probe, "prefix_entry_resent": False})
+        else:
+            chk.fail("C05.PATH.lru", label, "pyjelly.serialize.lookup.Lookup.insert:eviction-policy", f"prefix table of size 2: {why}; an entry referenced by the statement being encoded can be evicted by a later term of the same statement")
